@@ -2,6 +2,7 @@ package transaction
 
 import (
 	"fmt"
+	"strings"
 	"time"
 
 	"github.com/sboehler/knut/lib/common/compare"
@@ -47,12 +48,14 @@ type Builder struct {
 	Targets     []*commodity.Commodity
 }
 
-// Build builds a transactions.
+// Build builds a transactions. The journal syntax has no escape for a double
+// quote inside a description, so a description coming from outside the
+// journal (importers) must not contain one.
 func (tb Builder) Build() *Transaction {
 	return &Transaction{
 		Src:         tb.Src,
 		Date:        tb.Date,
-		Description: tb.Description,
+		Description: strings.ReplaceAll(tb.Description, "\"", "'"),
 		Postings:    tb.Postings,
 		Targets:     tb.Targets,
 	}
